@@ -70,6 +70,7 @@ def gen_spec(rng, with_ed, names, cols_l, cols_r):
         spec['op'] = rng.choice(['>=', '>', '='])
     # the documented measure names are case-insensitive for the filters
     spec['spelling'] = rng.choice([0, 0, 1, 2])
+    spec['cand_with_id'] = rng.random() < 0.75
     return spec
 
 
@@ -87,8 +88,17 @@ def make_filter(spec, tok):
                spec['allow_missing'])
 
 
-def run_spec(spec, L, R, names, tok):
-    """Executes one API call; returns the result or the exception instance."""
+def make_cand(L, R, names, with_id=True):
+    lkey, _, rkey, _ = names
+    pairs = [(a, b) for a in L[lkey].tolist() for b in R[rkey].tolist()]
+    if with_id:
+        return pd.DataFrame([(i, a, b) for i, (a, b) in enumerate(pairs)], columns=['_id', 'l_k', 'r_k'])
+    return pd.DataFrame(pairs, columns=['l_k', 'r_k'])     # a hand-built candidate set: just the two keys
+
+
+def run_spec(spec, L, R, names, tok, cand=None):
+    """Executes one API call; returns the result or the exception instance.  `cand`: the candidate
+    set object to use for filter_candset / apply_matcher (shared by the calls of a history)."""
     import joblib
     import py_stringsimjoin as ssj
     import py_stringmatching as sm
@@ -112,8 +122,8 @@ def run_spec(spec, L, R, names, tok):
                 lv = L[ljoin].tolist()
                 rv = R[rjoin].tolist()
                 return [f.filter_pair(a, b) for a in lv[:3] for b in rv[:3]]
-            cand = pd.DataFrame([(i, a, b) for i, (a, b) in enumerate(
-                (a, b) for a in L[lkey].tolist() for b in R[rkey].tolist())], columns=['_id', 'l_k', 'r_k'])
+            if cand is None:
+                cand = make_cand(L, R, names, spec.get('cand_with_id', True))
             if spec['kind'] == 'filter_candset':
                 return f.filter_candset(cand, 'l_k', 'r_k', L, R, lkey, rkey, ljoin, rjoin, spec['njobs'], False)
             return ssj.apply_matcher(cand, 'l_k', 'r_k', L, R, lkey, rkey, ljoin, rjoin, tok,
@@ -144,9 +154,19 @@ def run_histories(seed, n_hist, hist_len=6):
         L0, R0 = L.copy(deep=True), R.copy(deep=True)
         tok0 = clone_tok(tok)
         specs = [gen_spec(rng, with_ed, names, L.columns, R.columns) for _ in range(hist_len)]
+        cands = {True: make_cand(L, R, names, True), False: make_cand(L, R, names, False)}
+        cands0 = {k_: v_.copy(deep=True) for k_, v_ in cands.items()}
         for k, spec in enumerate(specs):
             sl, sr, st = snapshot(L), snapshot(R), tok_state(tok)
-            res = run_spec(spec, L, R, names, tok)
+            cand = cands[spec.get('cand_with_id', True)]
+            sc = snapshot(cand)
+            res = run_spec(spec, L, R, names, tok, cand)
+            if not unchanged(cand, sc):
+                problems.append(dict({'history': h, 'step': k, 'spec': spec, 'tokenizer': kind,
+                                      'candset_before': sc[0].to_dict(orient='split'),
+                                      'candset_after': cand.to_dict(orient='split')},
+                                     what='the candidate set was modified by the call', cls='input_mutated'))
+                cands[spec.get('cand_with_id', True)] = cand = cands0[spec.get('cand_with_id', True)].copy(deep=True)
             calls += 1
             for kk, vv in (('kind', spec['kind']), ('measure', spec.get('measure')), ('tokenizer', kind), ('rs0', rs0)):
                 dist[kk][str(vv)] = dist[kk].get(str(vv), 0) + 1
@@ -163,7 +183,8 @@ def run_histories(seed, n_hist, hist_len=6):
             if not unchanged(L, sl) or not unchanged(R, sr):
                 problems.append(dict(desc, what='an input table was modified by the call', cls='input_mutated'))
             # the same call in isolation on fresh objects
-            iso = run_spec(spec, L0.copy(deep=True), R0.copy(deep=True), names, clone_tok(tok0))
+            iso = run_spec(spec, L0.copy(deep=True), R0.copy(deep=True), names, clone_tok(tok0),
+                           cands0[spec.get('cand_with_id', True)].copy(deep=True))
             if not frames_equal(res, iso):
                 problems.append(dict(desc, what='result differs from the same call made in isolation',
                                      cls='history_dependent'))
